@@ -7,7 +7,6 @@ import (
 	"encoding/json"
 	"errors"
 	"fmt"
-	"io"
 	"net"
 	"os"
 	"path/filepath"
@@ -1034,7 +1033,6 @@ func (a *Agent) PortFwdWrite(SocketID int, data []byte) error {
 
 func (a *Agent) PortFwdRead(SocketID int) ([]byte, error) {
 	var (
-		data    = bytes.Buffer{}
 		PortFwd *PortFwd
 	)
 
@@ -1042,14 +1040,15 @@ func (a *Agent) PortFwdRead(SocketID int) ([]byte, error) {
 
 	if PortFwd != nil {
 		if PortFwd.Conn != nil {
-			/* read from our socket to the data buffer or return error */
-			_, err := io.Copy(&data, PortFwd.Conn)
+			/* read what is available from our socket or return error */
+			buf := make([]byte, 0x10000)
+			n, err := PortFwd.Conn.Read(buf)
 			if err != nil {
 				return nil, err
 			}
 
 			/* return the read data */
-			return data.Bytes(), nil
+			return buf[:n], nil
 		} else {
 			return nil, errors.New("rportfwd connection is empty")
 		}
